@@ -267,13 +267,22 @@ func (db *DB) setRemove(batch driver.Batching, addr, rootAddr boson.Address) (gc
 		}
 		return 0, nil
 	}
-	if gcItem.GCounter > 1 {
+	// removing the root chunk itself removes its access entry (above), so the
+	// file's gc entry has to go with it whatever its counter says: a gc entry
+	// left behind can no longer be found through the access index, and a later
+	// retrieval of the same file would add a second entry for the same root
+	removed := int64(1)
+	if gcItem.GCounter > 1 && !addr.Equal(rootAddr) {
 		gcItem.GCounter--
 		err = db.gcIndex.PutInBatch(batch, gcItem)
 		if err != nil {
 			return 0, err
 		}
 	} else {
+		if gcItem.GCounter > 1 {
+			// the whole remaining count of the entry leaves the cache size
+			removed = int64(gcItem.GCounter)
+		}
 		db.metrics.GCStoreTimeStamps.Set(float64(rootItem.StoreTimestamp))
 		db.metrics.GCStoreAccessTimeStamps.Set(float64(rootItem.AccessTimestamp))
 
@@ -288,7 +297,7 @@ func (db *DB) setRemove(batch driver.Batching, addr, rootAddr boson.Address) (gc
 		}
 	}
 
-	return -1, nil
+	return -removed, nil
 }
 
 // setPin increments pin counter for the chunk by updating
